@@ -21,14 +21,15 @@ var shutSerial atomic.Uint64
 
 // ShutdownScenario: activities in flight while the store is shut down at a PRNG-chosen hook hit.
 type ShutdownScenario struct {
-	Disk      bool
-	Handles   int
-	Shutdown  string   // "close-all", "delete", "drop", "close-one"
-	Point     string   // hook point whose Nth hit triggers the shutdown ("" = after a delay)
-	Nth       int
-	Activity  []string // subset of writers, feeds, views, expiry, touch
-	Report    func(kind, msg string)
-	Count     func(string, int64)
+	Disk         bool
+	Handles      int
+	Shutdown     string // "close-all", "delete", "drop", "close-one"
+	Point        string // hook point whose Nth hit triggers the shutdown ("" = after a delay)
+	Nth          int
+	Activity     []string // subset of writers, feeds, views, expiry, touch
+	StaleSibling bool     // a bucket of the same name and URL was deleted before; a handle of it is closed while this one is open
+	Report       func(kind, msg string)
+	Count        func(string, int64)
 }
 
 var shutdownViewMap = `function(doc, meta) { if (doc.n !== undefined) { emit(doc.n, null); } }`
@@ -62,6 +63,16 @@ func (s *ShutdownScenario) Run(tmp string, r *rng.R) {
 	defer func() { func() { defer func() { _ = recover() }(); _ = by.CloseAndDelete(ctx) }() }()
 	byCol := by.DefaultDataStore()
 
+	var stale *rosmar.Bucket
+	if s.StaleSibling {
+		// the predecessor: same name, same URL, two handles; deleted through one of them
+		if p1, e1 := rosmar.OpenBucket(url, name, rosmar.CreateNew); e1 == nil {
+			if p2, e2 := rosmar.OpenBucket(url, name, rosmar.ReOpenExisting); e2 == nil {
+				stale = p2
+			}
+			s.safely("CloseAndDelete(predecessor)", func() { _ = p1.CloseAndDelete(ctx) })
+		}
+	}
 	var handles []*rosmar.Bucket
 	var cols [][2]*rosmar.Collection
 	for h := 0; h < s.Handles; h++ {
@@ -89,6 +100,11 @@ func (s *ShutdownScenario) Run(tmp string, r *rng.R) {
 			_ = os.RemoveAll(dir)
 		}
 	}()
+	if stale != nil {
+		// closing the leftover handle of the deleted predecessor must not touch the new bucket's reference count
+		s.safely("Close(stale handle of the deleted predecessor)", func() { stale.Close(ctx) })
+		s.Count("stale_predecessor_handles_closed", 1)
+	}
 	has := func(a string) bool {
 		for _, x := range s.Activity {
 			if x == a {
